@@ -58,6 +58,8 @@ class _Draws:
         """integer draw in [lo, hi_incl]"""
         name = self._name()
         lo, hi_incl = int(lo), int(hi_incl)
+        if lo > hi_incl:
+            raise ValueError("empty range for randint")  # as the real library would
         if self.script is not None:
             v = int(self.script.get(name, lo))
             if not lo <= v <= hi_incl:
